@@ -122,6 +122,11 @@ Next == /\ ~done /\ done' = TRUE
              /\ \A k \in {0, 1, 2, 3, 4, 13, 14, 53, 54, 1077, 1078, 1079, Len(std) - 1} : Emit(<<"tsbmp-prefix", k>>, "tileset", "prefix", SubSeq(std, 1, k), "refuse", <<>>)
              /\ \A f \in {g \in BmpFields : g[1] \in {"bmp.width", "bmp.height", "bmp.bitCount"}} : \A v \in BmpValues(f, TsPic(32)) :
                   Emit(<<"tsbmp-field", f[1], v>>, "tileset", f[1], SetBytes(std, f[2], v), "any", <<>>)
+        \* custom tilesets whose height and pixel length agree only modulo 2^32 (32 x height wraps), with exactly the declared pixel bytes present
+        /\ \A wt \in { <<B(224,255,255,255), B(0,252,255,255), 1024>>, <<B(0,0,0,8), LE32(0), 0>>, <<B(32,0,0,8), LE32(1024), 1024>>, <<B(0,0,0,128), LE32(0), 0>>,
+                      <<B(224,255,255,127), B(0,252,255,255), 1024>> } :
+             LET img == SubSeq(EncodeCustom(TsPic(32)), 1, 1096 + wt[3]) IN
+             Emit(<<"ts-witness32", wt>>, "tileset", "ts.geometry-witness32", SetBytes(SetBytes(img, 24, wt[1]), 1092, wt[2]), "any", <<>>)
         \* PRT without animations (palettes and images only; nothing at all): the file ends with the four words of the animation header
         /\ \A nb \in 1..2 :
              LET full == PrtParts(IF nb = 1 THEN BaseImgs ELSE <<>>, 2)
